@@ -213,6 +213,11 @@ class World:
             s.yield_('ev')
         return e
 
+    def raw(self, e):
+        """an event recorded by the controller (no scheduling point)"""
+        self.log.append(e)
+        self.snaps.append(self.snapshot())
+
     def snapshot(self):
         """projected state (the vocabulary of Proj in spec/Gen_ServerRun.tla)"""
         g = self.gen
@@ -327,9 +332,9 @@ class World:
             world.ev(ev='serve_b', g=g, i=i)
             self._x_done.clear()
             try:
-                s.block(lambda: self._x_req or i in world.crash, None, 'serve')
+                s.block(lambda: self._x_req or (g, i) in world.crash, None, 'serve')
                 if not self._x_req:
-                    world.crash.discard(i)
+                    world.crash.discard((g, i))
                     world.ev(ev='serve_e', g=g, i=i, res='crash')
                     raise OSError(errno.EIO, 'scripted failure of the serving loop')
                 world.ev(ev='serve_e', g=g, i=i, res='ok')
@@ -631,7 +636,7 @@ class World:
                 s.yield_('sig')
                 continue
             if do == 'crash':
-                self.crash.add(op['i'])
+                self.crash.add((self.gen, op['i']))
                 self.ev(ev='crash', i=op['i'])
                 continue
             srv = self.srv
@@ -669,7 +674,7 @@ class World:
         s = self.s
         tmax = self.case.get('tmax', 40)
         err = ''
-        self.log.append({'ev': 'cfg', 'nif': len(self.schemes), 'mode': self.case.get('mode', ''),
+        self.raw({'ev': 'cfg', 'nif': len(self.schemes), 'mode': self.case.get('mode', ''),
                          'nameform': 'path' if self.case.get('mode') == 'args' else 'plain', 'th': 'ctl', 'vt': 0})
         try:
             with self.patches():
@@ -678,10 +683,10 @@ class World:
                 except ds.SchedAbort:
                     raise
                 except Exception as e:     # the constructor refuses the arguments / the file
-                    self.log.append({'ev': 'init_exc', 'exc': type(e).__name__, 'th': 'ctl', 'vt': 0})
+                    self.raw({'ev': 'init_exc', 'exc': type(e).__name__, 'th': 'ctl', 'vt': 0})
                     srv = None
                 if srv is not None:
-                    self.log.append({'ev': 'init', 'name': srv.name, 'main': self.index(str(srv.node_cfg['interface'])),
+                    self.raw({'ev': 'init', 'name': srv.name, 'main': self.index(str(srv.node_cfg['interface'])),
                                      'disc': srv.discovery is None, 'hasif': hasattr(srv, 'interfaces'),
                                      'handlers': sorted(('sigint' if k == signal.SIGINT else 'sigterm')
                                                         for k, h in self.installed.items()
@@ -710,7 +715,7 @@ class World:
         s = self.s
         alive = [n for n in s.order if not s.threads[n].finished]
         roles = {n: self.roles.get(n, n) for n in alive}
-        self.log.append({
+        self.raw({
             'ev': 'quiet', 'th': 'ctl', 'vt': int(round((s.now - T0) * 10)),
             'run': self.result.get('run', 'alive'),
             'ifalive': sorted([self.tgen.get(n, 0), int(r[2:])] for n, r in roles.items() if r.startswith('if')),
